@@ -100,7 +100,8 @@ def check(ctx):
         elif da[0] == "list" and len(da[1]) == 1 and dn[0] == "list" and len(dn[1]) == 1:
             okd = True if Q.unwrap(da[1][0]) == ("param", "grid") else None
             nm = dn[1][0]
-            oku = nm[0] == "ifexp" and nm[3] == const("scalars") and nm[2] == ("attr", ("param", "grid"), "name")
+            gname = ("attr", ("param", "grid"), "name")     # conditional expressions are stored on the un-negated test
+            oku = nm[0] == "ifexp" and nm[1] == ("cmp", "is", gname, NONE) and nm[2] == const("scalars") and nm[3] == gname
             ctx.check("R2", "%s|unnamed-dataarray-is-scalars" % GT, True if oku else (False if nm == ("attr", ("param", "grid"), "name") else None),
                       "an unnamed DataArray becomes the column 'scalars'", bad="an unnamed DataArray produces a None column name", fn=GT)
         ctx.check("R2", "%s|data-columns-in-step|%s" % (GT, tag), okd, "data columns are the raveled variables, in the order of their names", fn=GT)
